@@ -467,24 +467,23 @@ impl Duration {
     /// Decomposes a Duration in its sign, days, hours, minutes, seconds, ms, us, ns
     #[must_use]
     pub fn decompose(&self) -> (i8, u64, u64, u64, u64, u64, u64, u64) {
-        let mut me = *self;
-        let sign = me.signum();
-        me = me.abs();
-        let days = me.to_unit(Unit::Day).floor();
-        me -= days.days();
-        let hours = me.to_unit(Unit::Hour).floor();
-        me -= hours.hours();
-        let minutes = me.to_unit(Unit::Minute).floor();
-        me -= minutes.minutes();
-        let seconds = me.to_unit(Unit::Second).floor();
-        me -= seconds.seconds();
-        let milliseconds = me.to_unit(Unit::Millisecond).floor();
-        me -= milliseconds.milliseconds();
-        let microseconds = me.to_unit(Unit::Microsecond).floor();
-        me -= microseconds.microseconds();
-        let nanoseconds = me.to_unit(Unit::Nanosecond).round();
+        let sign = self.signum();
+        // Split the magnitude with integer arithmetic: every field is exact for every duration.
+        let mut rem = self.total_nanoseconds().unsigned_abs();
+        let days = rem / u128::from(NANOSECONDS_PER_DAY);
+        rem %= u128::from(NANOSECONDS_PER_DAY);
+        let hours = rem / u128::from(NANOSECONDS_PER_HOUR);
+        rem %= u128::from(NANOSECONDS_PER_HOUR);
+        let minutes = rem / u128::from(NANOSECONDS_PER_MINUTE);
+        rem %= u128::from(NANOSECONDS_PER_MINUTE);
+        let seconds = rem / u128::from(NANOSECONDS_PER_SECOND);
+        rem %= u128::from(NANOSECONDS_PER_SECOND);
+        let milliseconds = rem / u128::from(NANOSECONDS_PER_MILLISECOND);
+        rem %= u128::from(NANOSECONDS_PER_MILLISECOND);
+        let microseconds = rem / u128::from(NANOSECONDS_PER_MICROSECOND);
+        let nanoseconds = rem % u128::from(NANOSECONDS_PER_MICROSECOND);
 
-        // Everything should fit in the expected types now
+        // Everything fits in the expected types: days is at most 32768 * 36525.
         (
             sign,
             days as u64,
